@@ -378,6 +378,10 @@ func (ex *Exec) intrinsic(fn *ssa.Function, args []Val, caller *frame) (Val, boo
 	if r, ok := ex.intrinsic2(name, fn, args, caller); ok {
 		return r, true
 	}
+	ex.canInterpret = func(string) bool {
+		p := fnPackage(fn)
+		return p != nil && ex.env.interpPkgs[p.Pkg.Path()] && fn.Blocks != nil
+	}
 	if r, ok := ex.nativeFallback(name, args); ok {
 		return r, true
 	}
